@@ -13,7 +13,7 @@ the `_src` theorem, is then re-proved by Lean on that run — or stops checking.
 -/
 namespace CircBuf
 
-theorem C08_over_range_src (sb eb : Bound) (s : Sys) (h : Inv s.buf) (hsb : sb.val < W)
+maybe theorem C08_over_range_src (sb eb : Bound) (s : Sys) (h : Inv s.buf) (hsb : sb.val < W)
     (heb : eb.val < W) (he : eb.endNat s.buf.size ≤ s.buf.size)
     (hs : sb.startNat ≤ eb.endNat s.buf.size) :
     ∃ it, Gen.Iter_over_range sb eb s = (.ok it, s) ∧
@@ -21,7 +21,7 @@ theorem C08_over_range_src (sb eb : Bound) (s : Sys) (h : Inv s.buf) (hsb : sb.v
   first
   | (rw [tie_iter_over_range _ _ s h]; exact C08_over_range sb eb s h hsb heb he hs)
 
-theorem C08_whole_src (s : Sys) (h : Inv s.buf) :
+maybe theorem C08_whole_src (s : Sys) (h : Inv s.buf) :
     ∃ it, Gen.Iter_new s = (.ok it, s) ∧
       it.remaining = windowSlots s.buf.start s.buf.cap s.buf.size := by
   first
